@@ -92,7 +92,7 @@ def routing_cases(rng, n):
         for _ in range(n // 2):
             cur = rng.choice([100.0, 64.0, 100000.0, kernels.rnd_price(rng)])
             price = rng.choice(prices_near(cur))
-            q = rng.choice([1.0, 0.5, 2.0, -1.0])
+            q = rng.choice([1.0, 0.5, 2.0, -1.0, 1000.0, 1500.0, 4000.0, -1000.5])          # below, equal to and above the open quantity (1000)
             before = len(store.orders.get_orders('Sandbox', 'BTC-USDT'))
             try:
                 st.broker.reduce_position_at(q, price, cur)
